@@ -331,6 +331,151 @@ func enumerateFaults(c *wk.Ctx, r *rand.Rand, f []byte, each func(fault)) {
 	each(fault{"random-bytes", "top", func() []byte { b := make([]byte, 200); r.Read(b); return b }()})
 }
 
+// c18FullLAN leases addresses to 150..240 clients (long host names and client identifiers make the file large), restarts the
+// handler from the file and checks that every binding is there, that renewals are acknowledged and that no bound address is
+// offered to a newcomer.
+func c18FullLAN(c *wk.Ctx, idx int64, nt dhcpNet, scratch string) {
+	nic := nt.nic
+	rec := mon.NewRecorder(8)
+	s, err := mon.NewSession(rec, nic, 0, 0, 0)
+	if err != nil {
+		panic("HARNESS BUG: " + err.Error())
+	}
+	file := filepath.Join(scratch, fmt.Sprintf("dhcp-full-%d-%d.yaml", os.Getpid(), idx))
+	os.Remove(file)
+	defer os.Remove(file)
+	cfg := dhcp4_spoofer.Config{Mode: dhcp4_spoofer.ModePrimaryServer, NetfilterIP: nt.netfilter, LeaseFilename: file}
+	h, err := cfg.New(s)
+	if err != nil {
+		panic("HARNESS BUG: dhcp handler: " + err.Error())
+	}
+	defer func() {
+		h.Close()
+		s.Close()
+		synctest.Wait()
+	}()
+	time.Sleep(3 * time.Second)
+	r := c.Rand("c18full", idx)
+	n := 150 + r.Intn(91)
+	rx := newRx()
+	bc := netip.MustParseAddr("255.255.255.255")
+	type cli struct {
+		mac refdec.MAC
+		id  []byte
+		ip  netip.Addr
+	}
+	exchange := func(hh *dhcp4_spoofer.Handler, cl *cli, q refdec.DHCPMsg, src netip.Addr) []refdec.DHCPMsg {
+		copy(q.CHAddr[:], cl.mac[:])
+		if cl.id != nil {
+			q.Options = append(q.Options, refdec.DHCPOpt{Code: 61, Data: cl.id})
+		}
+		frame, err := s.Parse(rx.load(dhcpFrame(cl.mac, src, bc, q, 68, 67, bcastMAC)))
+		if err != nil {
+			panic("HARNESS BUG: " + err.Error())
+		}
+		hh.ProcessPacket(frame)
+		rx.scribble()
+		synctest.Wait()
+		for len(s.C) > 0 {
+			<-s.C
+		}
+		var out []refdec.DHCPMsg
+		for _, f := range rec.Take() {
+			dec := refdec.Decode(f.Data)
+			if !dec.Err && dec.OffUDP != 0 && dec.DstPort == 68 {
+				if rp, err := refdec.ParseDHCP(f.Data[dec.OffUDP+8:]); err == nil && rp.Op == 2 {
+					out = append(out, rp)
+				}
+			}
+		}
+		return out
+	}
+	cs := func() map[string]any { return map[string]any{"index": idx, "clients": n, "net": nt.name} }
+	var cls []*cli
+	for k := 0; k < n; k++ {
+		cl := &cli{mac: refdec.MAC{0x02, 0xc5, 0, 0, byte(k >> 8), byte(k)}}
+		if k%2 == 0 {
+			cl.id = append([]byte{0}, []byte(fmt.Sprintf("client-identifier-of-station-%04d-%s", k, strings.Repeat("x", r.Intn(40))))...)
+		}
+		xid := [4]byte{0xfa, byte(k >> 8), byte(k), 1}
+		host := refdec.DHCPOpt{Code: 12, Data: []byte(fmt.Sprintf("station-%04d", k))}
+		off := exchange(h, cl, refdec.DHCPMsg{Op: 1, HType: 1, HLen: 6, XID: xid, Options: []refdec.DHCPOpt{{Code: 53, Data: []byte{1}}, host}}, ip4zero)
+		if len(off) != 1 || off[0].Type() != refdec.DHCPOffer {
+			break // pool exhausted: the clients so far are the population
+		}
+		ack := exchange(h, cl, refdec.DHCPMsg{Op: 1, HType: 1, HLen: 6, XID: xid, Options: []refdec.DHCPOpt{{Code: 53, Data: []byte{3}}, host,
+			{Code: 54, Data: ip4b(nic.HostIP)}, {Code: 50, Data: ip4b(off[0].YI)}}}, ip4zero)
+		if len(ack) != 1 || ack[0].Type() != refdec.DHCPAck {
+			break
+		}
+		cl.ip = ack[0].YI
+		cls = append(cls, cl)
+	}
+	if len(cls) < 100 {
+		c.Inconclusive(fmt.Sprintf("full-lan: only %d clients got a lease", len(cls)))
+		return
+	}
+	b, err := os.ReadFile(file)
+	if err != nil {
+		c.Viol("lease:restart:full-lan:no-file", err.Error(), cs())
+		return
+	}
+	c.ObsMax("lease_file_bytes_max", int64(len(b)))
+	h.Close()
+	h2, err := cfg.New(s)
+	if err != nil {
+		c.Viol("lease:restart:construct-error", err.Error(), cs())
+		return
+	}
+	defer h2.Close()
+	h2.MinuteTicker(time.Now())
+	b2, _ := os.ReadFile(file)
+	tr, ok := parseLeases(b2)
+	have := map[string]bool{}
+	for _, t := range tr {
+		have[fmt.Sprintf("%x=%v", t.client, t.ip)] = true
+	}
+	missing := 0
+	first := ""
+	for _, cl := range cls {
+		id := string(cl.mac[:])
+		if cl.id != nil {
+			id = string(cl.id)
+		}
+		if k := fmt.Sprintf("%x=%v", id, cl.ip); !have[k] {
+			if missing++; first == "" {
+				first = k
+			}
+		}
+	}
+	if !ok || missing > 0 {
+		d := cs()
+		d["file_bytes"] = len(b)
+		c.Viol("lease:restart:full-lan:bindings-lost", fmt.Sprintf("%d of %d acknowledged bindings are not in the lease file of the restarted handler (first: %s); the file had %d bytes before the restart, %d after", missing, len(cls), first, len(b), len(b2)), d)
+		return
+	}
+	for k := 0; k < 12; k++ {
+		cl := cls[r.Intn(len(cls))]
+		rep := exchange(h2, cl, refdec.DHCPMsg{Op: 1, HType: 1, HLen: 6, XID: [4]byte{0xfb, byte(k), 0, 2}, CI: cl.ip, Options: []refdec.DHCPOpt{{Code: 53, Data: []byte{3}}}}, cl.ip)
+		if len(rep) != 1 || rep[0].Type() != refdec.DHCPAck || rep[0].YI != cl.ip {
+			c.Viol("lease:restart:renewal-not-acknowledged", fmt.Sprintf("after the restart of a full LAN the renewal of %v got %d replies", cl.ip, len(rep)), cs())
+			return
+		}
+	}
+	nc := &cli{mac: refdec.MAC{0x02, 0xc9, 0, 0, 0, 9}}
+	for _, rp := range exchange(h2, nc, refdec.DHCPMsg{Op: 1, HType: 1, HLen: 6, XID: [4]byte{0xfc, 1, 2, 3}, Options: []refdec.DHCPOpt{{Code: 53, Data: []byte{1}}}}, ip4zero) {
+		for _, cl := range cls {
+			if rp.Type() == refdec.DHCPOffer && rp.YI == cl.ip {
+				c.Viol("lease:restart:bound-address-offered", fmt.Sprintf("after the restart of a full LAN %v (bound) is offered to a new client", cl.ip), cs())
+				return
+			}
+		}
+	}
+	c.Obs("full_lan_restarts_checked", 1)
+	c.Obs("full_lan_bindings_checked", int64(len(cls)))
+	c.Class("restart full lan")
+}
+
 func runC18(c *wk.Ctx) {
 	scratch := os.Getenv("VERIF_SCRATCH")
 	if scratch == "" {
@@ -355,6 +500,17 @@ func runC18(c *wk.Ctx) {
 		}
 		d.restart = true
 		runDHCPHistory(c, d)
+	}
+	// ---------------------------------------------------------------- a full LAN: every address of a /24 leased, then a restart
+	nBig := c.N(3, 24)
+	for k := int64(0); k < nBig; k++ {
+		idx := 800_000_000 + k
+		if !c.Mine(idx) {
+			continue
+		}
+		c.Begin(idx, "restart-full-lan", nil)
+		c.Eval()
+		runBubble(c, idx, func() { c18FullLAN(c, idx, nets[1], scratch) })
 	}
 	// ---------------------------------------------------------------- damage part
 	if c.Only >= 0 && c.Only < 900_000_000 {
